@@ -120,7 +120,7 @@ def gen_lift(cat, rnd, thorough):
     REFL = ['__radd__', '__rsub__', '__rmul__', '__rtruediv__', '__rfloordiv__', '__rmod__', '__rpow__', '__rlshift__',
             '__rrshift__', '__rand__', '__ror__', '__rxor__']
     names = sorted(set(methods) | set(builtins))
-    reps = 4 if thorough else 1
+    reps = 10 if thorough else 1
     for name in names:
         m = methods.get(name)
         b = builtins.get(name)
